@@ -53,8 +53,10 @@ def infer_redirection(url, recursive=True):
             obvious_redirect_match = re.search(OBVIOUS_REDIRECTS_RE, url)
 
             if obvious_redirect_match is not None:
+                # NOTE: "q" is too common a key: only on /url & /redirect routes,
+                # wherever the item sits in the query
                 if obvious_redirect_match.group(1) == "q":
-                    if "/url?q=" not in url and "/redirect" not in url:
+                    if "/url?" not in url and "/redirect" not in url:
                         return url
 
                 potential_target = unquote(obvious_redirect_match.group(2))
